@@ -341,7 +341,10 @@ pub fn lex(src: &dyn Src, opts: &LexOpts) -> Value {
         }
         c.insert("crc".into(), json!(hex32(u32le(&h, 16) as u32)));
         c.insert("name".into(), abs_name(name));
+        // the name as a reader must present it (decoded by the flagged encoding), as UTF-8 bytes
+        c.insert("dname".into(), abs_name(&crate::cp437::decode_name(name, flags & 0x800 != 0)));
         c.insert("fcomment".into(), abs_name(fcomment));
+        c.insert("dfcomment".into(), abs_name(&crate::cp437::decode_name(fcomment, flags & 0x800 != 0)));
         c.insert("extra".into(), json!(tlv));
         c.insert("z64_exact".into(), json!(z64_exact));
         cd.push(Value::Object(c));
